@@ -543,6 +543,11 @@ def comparison_guards(b, site_bb):
         l = t['discr']['place']['l']
         ds = [d for d in b.defs_of(l) if d[0] == 'stmt']
         ds = [d for d in ds if d[1] == sw] or ds
+        for _ in range(6):      # the flag may be moved (out of a helper written in place) before it is tested
+            if len(ds) == 1 and ds[0][3]['rv']['k'] == 'use' and ds[0][3]['rv']['op']['k'] in ('copy', 'move') and not ds[0][3]['rv']['op']['place']['p']:
+                ds = [d for d in b.defs_of(ds[0][3]['rv']['op']['place']['l']) if d[0] == 'stmt']
+            else:
+                break
         if len(ds) != 1 or ds[0][3]['rv']['k'] != 'binop' or ds[0][3]['rv']['op'] not in _NEG:
             continue
         rv = ds[0][3]['rv']
@@ -553,7 +558,7 @@ def comparison_guards(b, site_bb):
             continue
         if lab == 'sw:0':
             op = _NEG[op]
-        out.append((deep_path(b, a, at=sw), op, re.sub(r'_[iu](8|16|32|64|128|size)$', '', c.get('text', '')), sw, tgt))
+        out.append((deep_path(b, a, at=ds[0][1]), op, re.sub(r'_[iu](8|16|32|64|128|size)$', '', c.get('text', '')), sw, tgt))
     return out
 
 
@@ -588,3 +593,50 @@ def trace_to_entry(F, body, op, entries, depth=0):
             return None
         return trace_to_entry(F, sites[0].body, sites[0].args[r[1] - 1], entries, depth + 1)
     return None
+
+
+def call_truth_guards(b, site_bb):
+    """[(call site, truth)]: `site_bb` runs only when the bool returned by that call had that truth value (the value
+    may be copied, moved out of an inlined helper, or negated with `!` on the way to the branch)"""
+    out = []
+    for sw, tgt, lab, tst in guards_of(b, site_bb):
+        if tst[0] != 'val':
+            continue
+        t = b.blocks[sw]['term']
+        if t['discr']['k'] not in ('copy', 'move') or t['discr']['place']['p']:
+            continue
+        l = t['discr']['place']['l']
+        truth = (lab != 'sw:0')
+        at = sw
+        for _ in range(8):
+            ds = [d for d in b.defs_of(l) if d[0] in ('stmt', 'call')]
+            if len(ds) > 1:
+                ds = [d for d in ds if d[1] == at] or ds
+            if len(ds) != 1:
+                break
+            d = ds[0]
+            if d[0] == 'call':
+                out.append((d[2], truth))
+                break
+            rv = d[3]['rv']
+            if rv['k'] == 'use' and rv['op']['k'] in ('copy', 'move') and not rv['op']['place']['p']:
+                l = rv['op']['place']['l']
+                at = d[1]
+            elif rv['k'] == 'unop' and str(rv.get('op', '')).lower().startswith('not') and rv['a']['k'] in ('copy', 'move') and not rv['a']['place']['p']:
+                l = rv['a']['place']['l']
+                truth = not truth
+                at = d[1]
+            else:
+                break
+    return out
+
+
+def find_visit(F):
+    """the depth-first visit of the dependency graph: DepsGraph::visit, or -- if it was moved / renamed -- the one
+    self-recursive function of hot_reloading::dependencies"""
+    b = F.body('hot_reloading::dependencies::DepsGraph::visit')
+    if b:
+        return b
+    cands = [x for x in F.fn_bodies() if x.path.startswith('hot_reloading::dependencies::') and x.kind != 'Closure'
+             and any(c.callee and c.callee.best == x.path for c in x.calls())]
+    return cands[0] if len(cands) == 1 else None
